@@ -31,7 +31,7 @@ class Gen:
             max_t=4, max_m=4, p_nonexcl=0.25, p_nested=0.15, p_struct=0.45, p_alias=0.2,
             p_rel=0.5, p_two_mods=0.2, p_fsm=0.12, p_wit=0.5, p_validate=0.2, p_enable=0.3,
             p_defect=0.0, sched="eager", p_body_in_struct=0.15, rdep_rel=True, nested=True,
-            p_rdyrun=0.0, p_badrun=0.0, p_chain=0.0, p_relalias=0.0, p_xmod=0.0, p_constenable=0.0,
+            p_rdyrun=0.0, p_badrun=0.0, p_chain=0.0, p_relalias=0.0, p_xmod=0.0, p_constenable=0.0, p_always=0.0, wit_rounds=1,
         )
         self.opt.update(opt)
         self.nin = 0
@@ -70,6 +70,8 @@ class Gen:
             self.bodies.append(dict(
                 kind="T", ready=self.inp() if r.random() < 0.85 else 0, nonexcl=False, single=False,
                 hasarg=False, validate=0, comb="mux", parent=0, ch=[], mod=1, alias=0))
+            if o["p_always"] > 0 and r.random() < o["p_always"]:
+                self.bodies[-1]["always"] = True
         nb = len(self.bodies)
         meths = [b + 1 for b in range(nm)]
         trans = [b + 1 for b in range(nm, nb)]
@@ -278,9 +280,10 @@ class Gen:
                 used |= new
                 out.append(self.call(b, c))
         if r.random() < o["p_wit"] and depth == 0:
-            for dom in r.sample(["comb", "sync", "av", "top"], r.randint(1, 4)):
-                self.wits.append(dict(dom=dom))
-                self.insert_somewhere(out, {"t": "wit", "w": len(self.wits)})
+            for _ in range(o["wit_rounds"]):
+                for dom in r.sample(["comb", "sync", "av", "top"], r.randint(1, 4)):
+                    self.wits.append(dict(dom=dom))
+                    self.insert_somewhere(out, {"t": "wit", "w": len(self.wits)})
         return out
 
     def alts_content(self, b, meths, depth, used, n):
@@ -513,7 +516,9 @@ def build(design, scheduler=None, netlist_only=False):
                     b = n["b"]
                     B = bodies[b - 1]
                     if B["kind"] == "T":
-                        with H.obj[b].body(m, ready=rdy(B)):
+                        # always_body = body + an assertion that the transaction is never blocked
+                        bodyf = H.obj[b].always_body if B.get("always") else H.obj[b].body
+                        with bodyf(m, ready=rdy(B)):
                             self.emit(m, B["ch"])
                     else:
                         meth = H.obj[b]
